@@ -25,10 +25,14 @@ def _one(args):
         p = os.path.join(d, "persim", rel)
         with open(p) as fh:
             s = fh.read()
-        if old not in s:
-            return dict(k=k, file=rel, new=new[:80], expect=expect, got="anchor-missing", rule=None)
+        pairs = list(zip(old, new)) if isinstance(old, (tuple, list)) else [(old, new)]   # several edits of one file
+        new = " / ".join(n_ for _, n_ in pairs)
+        for o_, n_ in pairs:
+            if o_ not in s:
+                return dict(k=k, file=rel, new=new[:80], expect=expect, got="anchor-missing", rule=None)
+            s = s.replace(o_, n_, 1)
         with open(p, "w") as fh:
-            fh.write(s.replace(old, new, 1))
+            fh.write(s)
         try:
             r = subprocess.run([sys.executable, "-m", "pst.check", pid, "--repo", d, "--dry"], cwd=VERIF, capture_output=True,
                                text=True, timeout=300)
